@@ -47,7 +47,7 @@ def run_crosscheck(run, reg, which, n):
         if status == "skipped":
             return
         for b in bad:
-            fails.append(({"kind": "crosscheck", "function": q, "kwargs": repr(kwargs)[:400]}, "%s: proved clause fails on a concrete call: %s" % (q, b)))
+            fails.append(({"kind": "crosscheck", "function": q, "kwargs": repr(kwargs)}, "%s: proved clause fails on a concrete call: %s" % (q, b)))
 
     if "RSMIComparator.compare_dicts" in which:
         from synrbl.SynProcessor.rsmi_comparator import RSMIComparator as RC
@@ -83,3 +83,59 @@ def bounded_part(run, modules, which, n_quick=200, n_thorough=3000):
     cases, fails = run_crosscheck(run, reg, which, n_quick if run.tier == "quick" else n_thorough)
     run.bounded("prover-cross-check", "the proved contracts of %s evaluated natively (same contract text) on random concrete calls of the real functions"
                 % ", ".join(which), cases, cases, fails[:5], False)
+
+
+# ---------------------------------------------------------------- failing-input search for a failed deductive obligation
+GENERATORS = {
+    "RSMIComparator.compare_dicts": ("contracts.comparator", "RSMIComparator.compare_dicts"),
+    "RSMIComparator.diff_dicts": ("contracts.comparator", "RSMIComparator.compare_dicts"),
+    "RSMIComparator.check_keys": ("contracts.comparator", "RSMIComparator.compare_dicts"),
+    "merge_stats": ("contracts.balancing", "merge_stats"),
+    "SyntheticRuleMatcher.exit_strategy_solution": ("contracts.matcher", "SyntheticRuleMatcher.exit_strategy_solution"),
+    "SyntheticRuleMatcher.can_match": ("contracts.matcher", "SyntheticRuleMatcher.exit_strategy_solution"),
+}
+
+
+def _callable(q):
+    if q.startswith("RSMIComparator."):
+        from synrbl.SynProcessor.rsmi_comparator import RSMIComparator as RC
+        return getattr(RC, q.split(".")[1])
+    if q == "merge_stats":
+        from synrbl.balancing import merge_stats
+        return merge_stats
+    from synrbl.SynRuleImputer.synthetic_rule_matcher import SyntheticRuleMatcher as M
+    if q.endswith("can_match"):
+        m = M([], {})
+        return lambda rule, data: m.can_match(rule, data)
+    return M.exit_strategy_solution
+
+
+def find_failing_input(q, modules, seed=0, n=4000):
+    """search concrete calls of the real function q for one on which its contract (same text, evaluated natively) fails.
+    returns (kwargs, clause) or None"""
+    if q not in GENERATORS:
+        return None
+    from pyvc.run import load_registry
+
+    class _R:
+        pass
+    r = _R()
+    r.seed = seed
+    reg = load_registry(modules)
+    _, fails = run_crosscheck(r, reg, [GENERATORS[q][1]], n)
+    for inp, what in fails:
+        if inp["function"] == q:
+            return inp, what
+    return None
+
+
+def replay_input(inp, modules=("contracts.comparator", "contracts.balancing", "contracts.matcher")):
+    """re-evaluate the contract of inp['function'] on the recorded concrete call"""
+    import ast as _ast
+    from pyvc.run import load_registry
+    reg = load_registry(list(modules))
+    q = inp["function"]
+    kwargs = _ast.literal_eval(inp["kwargs"])
+    mon = Monitor(reg.contracts[q], SPECFUNS)
+    res, bad, status = mon.call(_callable(q), kwargs)
+    return bool(bad)
